@@ -306,6 +306,19 @@ func (m *Machine) doSelect(th *Thread, fr *Frame, in *ssa.Select) {
 		if len(opts) == 1 {
 			return opts[0]
 		}
+		// Go picks uniformly among ready cases; a path explores that choice for its first
+		// `selectForks` multi-ready selects and is then scheduled round-robin per select site
+		// (fair: a case that stays ready is eventually taken), so that a loop around a select
+		// with two permanently ready cases does not unfold without bound.
+		if m.ps.selectForks >= m.cfgInt("selectForks", 6) {
+			if m.ps.selectLast == nil {
+				m.ps.selectLast = map[ssa.Instruction]int{}
+			}
+			k := (m.ps.selectLast[in] + 1) % len(opts)
+			m.ps.selectLast[in] = k
+			return opts[k]
+		}
+		m.ps.selectForks++
 		alts := make([]*Term, len(opts))
 		for i := range alts {
 			alts[i] = TrueT
